@@ -30,9 +30,17 @@ func (c *Catalog) createEnum(stmt *ast.CreateEnumStmt) error {
 	if _, _, err := schema.getType(stmt.TypeName); err == nil {
 		return sqlerr.TypeExists(tbl.Name)
 	}
+	vals := stringSlice(stmt.Vals)
+	for i := range vals {
+		for j := 0; j < i; j++ {
+			if vals[i] == vals[j] {
+				return fmt.Errorf("enum label %q used more than once", vals[i])
+			}
+		}
+	}
 	schema.Types = append(schema.Types, &Enum{
 		Name: stmt.TypeName.Name,
-		Vals: stringSlice(stmt.Vals),
+		Vals: vals,
 	})
 	return nil
 }
